@@ -214,6 +214,9 @@ struct Runner {
     std::vector<PoolLit> & pool;
     std::vector<std::pair<int, bool>> stack;   // (pool index, requested sign)
     bool conflict = false;
+    unsigned sinceCheck = 0;                    // literals asserted since the last check: CoreSMTSolver::checkTheory calls
+                                                // check right after assertLits, and a conflict backjumps over the whole
+                                                // current decision level, so a backtrack never keeps part of an unchecked batch
     std::vector<int> conflictExpl;              // positions? -> pool indices of the explanation
     struct Ded { int idx; bool sign; size_t depth; };
     std::vector<Ded> pending;
@@ -257,6 +260,7 @@ struct Runner {
         lbool sgn = (sign != pool[k].flip) ? l_True : l_False;
         bool res = h.assertLit(PtAsgn(pool[k].atom, sgn));
         stack.push_back({k, sign});
+        ++sinceCheck;
         out << "assert " << k << (sign ? ":+" : ":-") << " -> " << (res ? 1 : 0);
         if (!res) { conflict = true; out << " expl" << explanation(); }
         out << "\n";
@@ -271,6 +275,7 @@ struct Runner {
     }
     void doBacktrack(unsigned n) {
         if (n > stack.size()) n = stack.size();
+        if (n > 0 && n < sinceCheck) n = sinceCheck;
         if (conflict) {
             // the SAT solver retracts at least one literal of the conflict (and at least the last literal)
             unsigned need = 1;
@@ -283,6 +288,7 @@ struct Runner {
         if (n == 0) { out << "skip B0\n"; return; }
         for (auto * s : h.solverSchedule) s->popBacktrackPoints(n);
         stack.resize(stack.size() - n);
+        sinceCheck = 0;
         conflict = false; conflictExpl.clear();
         pending.erase(std::remove_if(pending.begin(), pending.end(), [&](Ded const & d) { return d.depth > stack.size(); }), pending.end());
         out << "back " << n << "\n";
@@ -291,6 +297,7 @@ struct Runner {
     void doCheck(bool complete) {
         if (conflict) { out << "skip C\n"; return; }
         TRes r = h.check(complete);
+        sinceCheck = 0;
         bool splits = false;
         for (auto * s : h.solverSchedule) if (s->hasNewSplits()) splits = true;
         out << "check " << (complete ? 1 : 0) << " -> " << (r == TRes::SAT ? "SAT" : r == TRes::UNSAT ? "UNSAT" : "UNKNOWN");
